@@ -44,6 +44,12 @@ def run_case(case):
     if lev == 'default':
         sizer = q.LongShortLeveragedOrderSizer(b, 'p', dh)
         lev = 1.0
+    elif case.get('via_qts'):
+        qts = q.QuantTradingSystem(q.StaticUniverse(sorted(weights)), b, 'p', dh, None, long_only=False,
+                                   gross_leverage=lev, submit_orders=False)
+        sizer = qts.portfolio_construction_model.order_sizer
+        if not isinstance(sizer, q.LongShortLeveragedOrderSizer):
+            raise Violation('long/short trading system built a %s' % type(sizer).__name__)
     else:
         sizer = q.LongShortLeveragedOrderSizer(b, 'p', dh, gross_leverage=lev)
     E = F(b.get_portfolio_total_equity('p'))
@@ -111,6 +117,8 @@ def run_case(case):
             cls.append('equity_with_positions')
         if case['leverage'] == 'default':
             cls.append('default_leverage')
+        if case.get('via_qts') and case['leverage'] != 'default':
+            cls.append('built_by_trading_system')
         if f > 0:
             cls.append('fee_positive')
         if any(abs(out[a]['quantity']) == 1 for a in out):
@@ -170,6 +178,7 @@ def cases(draw):
             case['hold_price'] = draw(price)
     if kind in ('mixed', 'ints') and draw(st.sampled_from([False, False, True])):
         case['more_weights'] = [{a: _sweight(draw) for a in assets} for _ in range(draw(st.integers(1, 2)))]
+    case['via_qts'] = draw(st.sampled_from([False, False, True]))
     inv = draw(st.sampled_from([None] * 12 + ['leverage', 'nan_price']))
     if inv == 'leverage':
         case['leverage'] = draw(st.sampled_from([0.0, -0.0, -1e-9, -0.5, -1.0, -20.0]))
